@@ -229,7 +229,7 @@ def plan(tier, scale):
                 for bg in (False, True) for pl in ([], [["W", 0], ["A", 1]])]
         return out
     out = [{"part": "random", "n": int(9000 * scale), "bound": 5} for _ in range(14)]
-    out += [{"part": "dfs", "base": {"reqs": [1, 1], "bg": bg, "plan": pl}, "bound": 2, "limit": 400000}
+    out += [{"part": "dfs", "base": {"reqs": [1, 1], "bg": bg, "plan": pl}, "bound": 2, "limit": 60000}
             for bg in (False, True) for pl in ([], [["W", 0], ["A", 1]])]
     return out
 
